@@ -76,7 +76,101 @@ def match_D1(v, trace):
     return False
 
 
+def _steps_before(trace, v):
+    return trace["steps"][: v["step"]]
+
+
+def _st(trace, i):
+    s = trace["steps"][i]
+    return s["st"] if "st" in s else trace["states"][s["si"] - 1]
+
+
+def match_D13(v, trace):
+    """a live placement that failed (no bet at the exchange) is completed locally and never leaves the live list"""
+    if v["prop"] not in ("C11", "C15") or v["name"] != "CompleteLeftLiveList":
+        return False
+    o = v["detail"][0]
+    st = _st(trace, v["step"] - 1)
+    rec = st["ord"].get(o)
+    return bool(rec) and not rec["bet"] and rec["status"] == "COMPLETE"
+
+
+def match_D21(v, trace):
+    """synchronous placement answered TIMEOUT although the exchange accepted the bet: the order stays PENDING, the bet is never picked up"""
+    if v["prop"] != "C11" or v["name"] not in ("NoOrphanBet", "AdoptedExactlyOnce", "AdoptedCounts"):
+        return False
+    timed_out_refs = set()
+    for s in _steps_before(trace, v):
+        if s["ev"] == "run" and s["a"].get("kind") == "PLACE":
+            for o, out in s["a"].get("outs", {}).items():
+                if out.get("status") == "TIMEOUT":
+                    timed_out_refs.add(s["a"]["pre"][o]["ref"])
+            # all attempts failed in transport although the first one was applied (exhausted retries)
+            if not s["a"].get("answered") and s["a"].get("applied"):
+                for o in s["a"].get("orders", []):
+                    timed_out_refs.add(s["a"]["pre"][o]["ref"])
+    st = _st(trace, v["step"] - 1)
+    if v["name"] == "NoOrphanBet":
+        return st["ord"][v["detail"][0]]["ref"] in timed_out_refs
+    if v["name"] == "AdoptedCounts":   # the pre-crash instance never knew the bet, the restarted one adopts it
+        sel = v["detail"][0].split("|")[2]
+        return any(b["ref"] in timed_out_refs and b["selk"] == sel for b in st["xb"].values())
+    return v["detail"][2] in timed_out_refs
+
+
+def _shared_ref_bets(st):
+    by = {}
+    for b, r in st["xb"].items():
+        by.setdefault(r["ref"], []).append(b)
+    return {b for bs in by.values() if len(bs) > 1 for b in bs}
+
+
+def match_D8(v, trace):
+    """after a restart only one of the bets sharing a customer reference (a replaced order) is adopted"""
+    if v["prop"] != "C11" or v["name"] not in ("AdoptedExactlyOnce", "AdoptedCounts"):
+        return False
+    st = _st(trace, v["step"] - 1)
+    if st.get("instance", 1) < 2:
+        return False
+    shared = _shared_ref_bets(st)
+    if v["name"] == "AdoptedExactlyOnce":
+        return v["detail"][0] in shared and v["detail"][1] == 0
+    # AdoptedCounts on a selection that has an unadopted bet with a shared reference
+    key = v["detail"][0]
+    sel = key.split("|")[2]
+    adopted = {o["betid"] for o in st["ord"].values()}
+    return any(st["xb"][b]["selk"] == sel and b not in adopted for b in shared)
+
+
+def match_D22(v, trace):
+    """partial cancel whose cancelled amount equals the remainder after it, with an order-stream update processed before the response: the order is completed locally while the exchange still has the remainder"""
+    if v["prop"] not in ("C11", "C12") or v["name"] not in ("CompletenessAgrees", "ReportToOwner", "AdoptedCounts", "SizesAgree", "TradesComplete"):
+        return False
+    hit = set()
+    for i, s in enumerate(_steps_before(trace, v)):
+        if s["ev"] == "run" and s["a"].get("kind") == "CANCEL" and s["a"].get("during"):
+            for o, out in s["a"].get("outs", {}).items():
+                pre = s["a"]["pre"][o]
+                if out.get("status") == "SUCCESS" and pre.get("red", 0) > 0:
+                    xb = _st(trace, i)["xb"].get(pre["betid"])
+                    if xb and xb["rem"] == out.get("cancelled") and xb["status"] == "EXECUTABLE":
+                        hit.add(o)
+    if not hit:
+        return False
+    d = v["detail"]
+    if v["name"] in ("CompletenessAgrees", "ReportToOwner", "SizesAgree"):
+        return d[0] in hit
+    if v["name"] == "TradesComplete":
+        return True
+    st = _st(trace, v["step"] - 1)
+    return True   # AdoptedCounts after a restart: the pre-crash instance had the wrong view of that order
+
+
 MATCHERS = {
+    "D13": match_D13,
+    "D21": match_D21,
+    "D8": match_D8,
+    "D22": match_D22,
     "D1": match_D1,
     "D16": match_D16,
     "D9": match_D9,
